@@ -1,4 +1,4 @@
-import HeraModel.Py
+import HeraModel.Model.Cli
 /-
   Spec.Expr — expressions of the debugger's mini-language and their meaning: ordinary integer arithmetic with floor
   division over literals, registers, symbols, the program counter and @-dereference; an error instead of a value whenever
@@ -13,8 +13,7 @@ deriving DecidableEq, Repr, Inhabited
 inductive E where
   | lit (v : Int)
   | reg (i : Nat)
-  | sym (name : List Nat)
-  | pc
+  | sym (name : List Nat)      -- `pc` in any letter case is the program counter
   | neg (e : E)
   | deref (e : E)
   | bin (op : BinOp) (l r : E)
@@ -44,8 +43,9 @@ def applyBin (op : BinOp) (a b : Int) : Except EvalErr Int :=
 def eval (env : Env) : E → Except EvalErr Int
   | .lit v => if inRange v then .ok v else .error .literalRange
   | .reg i => .ok (env.reg i)
-  | .sym s => match env.sym s with | some v => .ok v | none => .error .undefined
-  | .pc => .ok env.pc
+  | .sym s =>
+    if Cli.lower s == Str.ofString "pc" then .ok env.pc
+    else match env.sym s with | some v => .ok v | none => .error .undefined
   | .neg e => do
     let a ← eval env e
     if inRange (-a) then pure (-a) else throw .overflow
